@@ -27,3 +27,12 @@ Lemma gen_digestinfo :
   Gen.Hsm.ecdsa_prehash = [(ECDSAP256SHA256, 256); (ECDSAP384SHA384, 384)] /\
   Gen.Hsm.ec_oid_table = [([6;8;42;134;72;206;61;3;1;7], 256); ([6;5;43;129;4;0;34], 384)].
 Proof. repeat split; reflexivity. Qed.
+
+(* the key types the PKCS#11 layer knows are the four the model distinguishes, and sign_using_p11's `match key.key_type` has exactly the two arms
+   the model's case analysis has (RSA/EC go on, AES/DES3 raise), followed by formatting and the token call: a fifth key type, or another arm,
+   leaves the model's never_sign_symmetric without its tie *)
+Lemma gen_key_types :
+  Gen.Hsm.keytype_members = [("RSA"%string, "_p11.CKK_RSA"%string); ("EC"%string, "_p11.CKK_EC"%string); ("AES"%string, "_p11.CKK_AES"%string); ("DES3"%string, "_p11.CKK_DES3"%string)] /\
+  Gen.Hsm.sign_keytype_arms = [("KeyType.RSA | KeyType.EC"%string, "pass"%string); ("KeyType.AES | KeyType.DES3"%string, "raise"%string)] /\
+  Gen.Hsm.sign_using_p11_steps = ["_sign_data = _format_data_for_signing"%string; "return key.sign"%string].
+Proof. repeat split; reflexivity. Qed.
